@@ -116,3 +116,6 @@ PLAN["C13"]["thorough"] = PLAN["C13"]["thorough"] + ["stagger"]
 
 PLAN["C04"]["quick"] = PLAN["C04"]["quick"] + ["conc"]
 PLAN["C04"]["thorough"] = PLAN["C04"]["thorough"] + ["conc"]
+
+PLAN["C20"]["quick"] = PLAN["C20"]["quick"] + ["conc"]
+PLAN["C20"]["thorough"] = PLAN["C20"]["thorough"] + ["conc"]
